@@ -388,3 +388,18 @@ def bernoulliInhomTF (dt : Float) (X U : List (List Float)) : List (List Bool) :
   List.zipWith (fun xs row => List.zipWith (fun u x => decide (u < probF dt x)) row xs) X U
 
 end InfernoVerif.Enc
+
+/-! ## Specification demands (what the property requires of an output; printed by the driver,
+evaluated on the real output by the harness, proved of the model in `Props/C19.lean`) -/
+namespace InfernoVerif.Enc
+
+/-- The interval scale of a rate `x` is non-negative: no compensation, a silent element, or
+`refrac/dt ≤ 1000 / (x · dt)` (i.e. `x · refrac ≤ 1000`). -/
+def ExpCfg.compat (c : ExpCfg) (x : Rat) : Bool :=
+  !c.compensate || decide (x = 0) || decide (c.R ≤ 1000 / (x * c.dt))
+
+/-- Minimum distance, in steps, between two spikes of one element that the property demands:
+`⌊refrac / dt⌋` (= `R` when `refrac = R·dt`), and at least 1 (distinct steps). -/
+def ExpCfg.specGap (c : ExpCfg) : Nat := if c.R.floor.toNat ≤ 1 then 1 else c.R.floor.toNat
+
+end InfernoVerif.Enc
